@@ -288,11 +288,13 @@ Proof. vm_compute. repeat split; try reflexivity. discriminate. Qed.
    the fine-grid lemma on [1,2) - binary32 spacing 2^-23 < seven-digit spacing 10^-6, so a
    seven-digit decimal is recovered from its float - and hence idempotence of parse32 o fmt7 at
    every number whose seven digits fall in [1,2).
-   MISSING for the full H_num_stable: the other binades of the fine regions (same script with
-   other constants), the coarse regions ([2^-10,1e-3), [2^-30,1e-9), >= 2^33: statement below,
-   Proofs/NumFmt.v coarse_grid_recovers_float_statement), the region boundaries (a float just
-   below a power of ten that prints as that power), zero, and the link from NumFmt.norm to the
-   abstract fmt7/parse32 of Base/Num.v.  H_num_stable therefore stays the Section hypothesis
+   Also PROVED: the coarse-grid lemma on [2^-10, 10^-3) - binary32 spacing 2^-33 > seven-digit
+   spacing 10^-10, so the float is recovered from its seven digits (while the decimal is NOT
+   recovered from its float there) - and idempotence at every number that loads into that binade.
+   MISSING for the full H_num_stable: the other binades of the fine and coarse regions (same
+   scripts with other constants: [2,10), the other decades, [2^-30,1e-9), >= 2^33), the region
+   boundaries (a float just below a power of ten that prints as that power), zero, and the link
+   from NumFmt.norm to the abstract fmt7/parse32 of Base/Num.v.  H_num_stable therefore stays the Section hypothesis
    of the round-trip theorems above.
    ================================================================================== *)
 From PC Require Model.NumFmt Proofs.NumFmt.
@@ -308,6 +310,18 @@ Theorem C01_num_stable_fine_grid_partial : forall m e D,
 Proof. exact Proofs.NumFmt.norm_idempotent_1_2. Qed.
 Print Assumptions C01_num_stable_fine_grid_partial.
 
+Theorem C01_coarse_grid_recovers_float_partial : forall M,
+  (2 ^ 23 <= M < 2 ^ 24)%Z -> (M * 1000 < 2 ^ 33)%Z ->
+  let '(D, q) := NumFmt.fmt7 M (-33) in NumFmt.parse32 D q = (M, (-33)%Z).
+Proof. exact Proofs.NumFmt.coarse_grid_recovers_float. Qed.
+Print Assumptions C01_coarse_grid_recovers_float_partial.
+
+Theorem C01_num_stable_coarse_grid_partial : forall m e M,
+  NumFmt.norm m e = (M, (-33)%Z) -> (2 ^ 23 <= M < 2 ^ 24)%Z -> (M * 1000 < 2 ^ 33)%Z ->
+  NumFmt.norm (fst (NumFmt.norm m e)) (snd (NumFmt.norm m e)) = NumFmt.norm m e.
+Proof. exact Proofs.NumFmt.norm_idempotent_coarse. Qed.
+Print Assumptions C01_num_stable_coarse_grid_partial.
+
 (* rounding half-even to a grid: within half a unit, and the only grid point strictly within *)
 Theorem C01_half_even_rounding : forall num den, (0 <= num)%Z -> (0 < den)%Z ->
   (- den <= 2 * (num - NumFmt.div_half_even num den * den) <= den)%Z /\
@@ -318,6 +332,13 @@ Qed.
 Print Assumptions C01_half_even_rounding.
 
 (* non-vacuity: 1.234567 -> its binary32 10356299 * 2^-23 -> '%.7g' gives 1.234567 back *)
+(* in the coarse binade the decimal 0.0009765629 is NOT recovered from its float (it prints as
+   0.0009765628), but that float is recovered from what it prints *)
+Example C01_coarse_grid_nonvacuous :
+  NumFmt.parse32 9765629 (-10) = (8388611, -33)%Z /\ NumFmt.fmt7 8388611 (-33) = (9765628, -10)%Z /\
+  NumFmt.parse32 9765628 (-10) = (8388611, -33)%Z.
+Proof. vm_compute. repeat split; reflexivity. Qed.
+
 Example C01_fine_grid_nonvacuous :
   NumFmt.parse32 1234567 (-6) = (10356299, -23)%Z /\ NumFmt.fmt7 10356299 (-23) = (1234567, -6)%Z.
 Proof. vm_compute. split; reflexivity. Qed.
